@@ -103,10 +103,13 @@ fn date_as(ty: Ty, y: i32, m: u32, d: u32) -> V {
 pub fn run(ctx: &Ctx, st: &mut Stats) {
     cal();
     // (a) every (year, day-of-year 0..=367)
-    let ystride = ctx.tier.pick(997, 1, 1);
+    let ystride = ctx.tier.pick(3301, 1, 1);
     ctx.par(st, "(a) every (year 1..=9999, day-of-year 0..=367)", true, 0, 9999 / ystride * 368, |st, i, _| {
         let y = 1 + (i / 368) * ystride;
         let n = (i % 368) as u32;
+        if ctx.tier == Tier::San && n % 5 != 0 && n > 1 && n < 365 {
+            return;
+        }
         let len = if leap(y) { 366 } else { 365 };
         let md = if n >= 1 && n <= len { from_doy(y, n) } else { None };
         let ty = [Ty::Date, Ty::Ts, Ty::Ora][(i % 3) as usize];
